@@ -45,7 +45,16 @@ template <class D> struct World {
   std::vector<std::string> consts;
   size_t cpos = 0;
   sx::term cst(const char *tag) {
-    if (cpos < consts.size() && consts[cpos] != "?") return sx::term(atol(consts[cpos++].c_str()));
+    if (cpos < consts.size() && consts[cpos] != "?") {
+      const std::string &spec = consts[cpos++];
+      size_t plus = spec.find("+?");
+      if (plus == std::string::npos) return sx::term(atol(spec.c_str()));
+      // "B+?": a symbolic constant in [B - 4, B + 4] (large magnitudes for machine-weight domains)
+      long base = atol(spec.substr(0, plus).c_str());
+      sx::term t = in(tag);
+      if (recording) assume(t >= sx::term(base - 4) && t <= sx::term(base + 4));
+      return t;
+    }
     cpos++;
     sx::term t = in(tag);
     if (recording && CR > 0) assume(t >= sx::term(-CR) && t <= sx::term(CR));
@@ -379,7 +388,33 @@ template <class D1, class D2> static void harness2(D1 top1, D2 top2, bool q2) {
   check_sound(W2.A, W2.sA, W2.V, "second-world:A");
 }
 
+// C12 (liftings): the same straight-line history on the base domain and on the lifting: every variable
+// bound reported by the lifting is at least as tight as the base domain's
+#ifdef DOM_HAS_BASE
+static void harness_lift() {
+  std::vector<sx::term> rec;
+  World<base_t> W1(base_t(), &rec, true);
+  for (auto &o : seq) step(W1, o, false);
+  World<dom_t> W2(make_top(), &rec, false);
+  for (auto &o : seq) step(W2, o, false);
+  bool b1 = B(W1.A.is_bottom()), b2 = B(W2.A.is_bottom());
+  sx::check(sx::form(!(b1 && !b2)), "lifting is bottom whenever the base is");
+  if (!b1 && !b2)
+    for (int i = 0; i < NV + 2; i++) {
+      itv_t x = W1.A.at(W1.V[i]), y = W2.A.at(W2.V[i]);
+      sx::check(sx::form(B(y <= x)), "lifting reports bounds at least as tight as its base");
+    }
+  check_sound(W2.A, W2.sA, W2.V, "lifting:A");
+}
+#endif
+
 static void harness() {
+#ifdef DOM_HAS_BASE
+  if (mode == "c12l") {
+    harness_lift();
+    return;
+  }
+#endif
   if (mode == "c16q") {
     harness2<dom_t, dom_t>(make_top(), make_top(), true);
     return;
